@@ -1,8 +1,25 @@
 package binary
 
 import (
+	"bytes"
 	"io"
 )
+
+// ReadBytes reads exactly n bytes from r. The length usually comes from the
+// data being parsed, so the buffer grows as bytes arrive instead of being
+// allocated up front. Like io.ReadFull it returns io.EOF if nothing could be
+// read and io.ErrUnexpectedEOF if the data ended early.
+func ReadBytes(r io.Reader, n uint32) ([]byte, error) {
+	buf := bytes.Buffer{}
+	read, err := io.CopyN(&buf, r, int64(n))
+	if err == io.EOF && read > 0 {
+		err = io.ErrUnexpectedEOF
+	}
+	if err != nil {
+		return nil, err
+	}
+	return buf.Bytes(), nil
+}
 
 func ReadU16Big(r io.ByteReader) (uint16, error) {
 	b1, err := r.ReadByte()
